@@ -30,6 +30,12 @@ func c12UpdateTier(s *MetadataStore, ctx context.Context, path string, t Tier) e
 	c12Tier = t
 	return nil
 }
+func c12GetFile(s *MetadataStore, ctx context.Context, path string) (*FileMetadata, error) {
+	if zz.Bool("metadata_lookup_fails") {
+		return nil, errors.New("sqlite busy")
+	}
+	return &FileMetadata{Path: c12Path, Database: "db", Measurement: "m", Tier: c12Tier, SizeBytes: 4}, nil
+}
 func c12Recent(s *MetadataStore, ctx context.Context, tier Tier, window time.Duration) ([]FileMetadata, error) {
 	if c12Tier == tier {
 		return []FileMetadata{{Path: c12Path, Database: "db", Measurement: "m", Tier: tier, SizeBytes: 4}}, nil
@@ -74,6 +80,16 @@ func VerifC12Migrate() {
 	cold.Faults = zz.Bool("cold_faults")
 	c12UpdateFails = zz.Bool("metadata_update_fails")
 	err := m.MigrateFile(context.Background(), MigrationCandidate{Path: c12Path, Database: "db", Measurement: "m", SizeBytes: 4, CurrentTier: TierHot, TargetTier: TierCold})
+	cand := MigrationCandidate{Path: c12Path, Database: "db", Measurement: "m", SizeBytes: 4, CurrentTier: TierHot, TargetTier: TierCold}
+	second := zz.Bool("stale_candidate_migrated_again")
+	if second {
+		// a cron cycle and a manual migrate both listed the file while it was hot: the
+		// second one works through its stale candidate after the first has finished
+		cold.Faults = zz.Bool("cold_faults_2")
+		c12UpdateFails = zz.Bool("metadata_update_fails_2")
+		_ = m.MigrateFile(context.Background(), cand)
+		zz.Reach("second-attempt")
+	}
 	hot.Faults, cold.Faults, c12UpdateFails = false, false, false
 
 	check := func(when string) {
